@@ -63,9 +63,9 @@ def call(fn):
         return ("err", canon.err_kind(ex), "%s: %s" % (type(ex).__name__, str(ex)[:160]))
 
 
-def open_real(data, nptdms, **kw):
+def open_real(data, nptdms, raw_timestamps=True, **kw):
     st = RecordingStream(data)
-    f = nptdms.TdmsFile.open(st, raw_timestamps=True, **kw)
+    f = nptdms.TdmsFile.open(st, raw_timestamps=raw_timestamps, **kw)
     st.take_log()
     return f, st
 
